@@ -335,6 +335,7 @@ def quick_scenarios(prop):
                 pscenario("q-isolate-follower-3", 3, 6, ["isolate-follower"], lane=2),
                 pscenario("q-split-3", 3, 6, ["split"], lane=3)]
     return [scenario("q-snapshot-all-kill-3", 3, 8, 5500, ["kill-all"], snap=20),
+            scenario("q-orphan-snapshot-3", 3, 6, 4500, ["orphan-snap-all-kill"], snap=15),
             scenario("q-lag-then-all-kill-3", 3, 6, 6500, ["lag-then-all-kill"], snap=20)]
 
 
